@@ -9,7 +9,7 @@ observed event history); the correspondence (`mismatch`) runs the interleaving m
 schedulers and compares.
 -/
 import GoZero.Base.Trace
-import GoZero.C10.Spec
+import GoZero.C10.Spec5
 namespace GoZero.C10
 
 open GoZero
@@ -18,6 +18,7 @@ def parseAct (t : String) : Option (Option UAct) :=
   -- `some none` = an action of the harness only (stall / yield / ctx-cancel): invisible to the model
   match t.toList with
   | ['p'] => some (some .panic)
+  | ['p', 'e'] => some (some .panic)     -- a panic whose value is an error
   | ['a'] => some (some .readAll)
   | ['o'] => some (some .readOne)
   | ['s'] => some none
@@ -27,12 +28,13 @@ def parseAct (t : String) : Option (Option UAct) :=
   | 'u' :: _ :: _ => some none
   | 't' :: _ :: _ => some none
   | 'w' :: d => (String.ofList d).toNat?.map fun v => some (.write v)
-  | 'c' :: d => (String.ofList d).toNat?.map fun k => some (.cancel (if k = 0 then none else some k))
+  | 'c' :: d => (String.ofList d).toNat?.map fun k => some (.cancel (cancelArg k))
   | _ => none
 
 def parseScript (s : String) : Option (List UAct) :=
   if s = "-" then some [] else
-  (s.splitOn ".").foldr (fun t acc => do
+  -- `q` = runtime.Goexit(): the user function ends there (for the model: the script ends)
+  ((s.splitOn ".").takeWhile (· ≠ "q")).foldr (fun t acc => do
     let l ← acc
     let a ← parseAct t
     pure (match a with | some x => x :: l | none => l)) (some [])
@@ -52,7 +54,7 @@ def parseWhoErr (d : List Char) : Option (Who × Option Nat) :=
   match (String.ofList d).splitOn "_" with
   | [w, k] => do
     let k ← k.toNat?
-    let e := if k = 0 then none else some k
+    let e := cancelArg k
     match w.toList with
     | ['r'] => pure (.reducer, e)
     | 'm' :: i => (natOf i).map fun i => (.mapper i, e)
@@ -114,7 +116,7 @@ drop every later write. -/
 def liveWritesOf (raw : String) : List Nat :=
   if raw = "-" then [] else
   let toks := (raw.splitOn ".").takeWhile fun t =>
-    !(t = "x" || t = "s" || t = "uxb" || t.startsWith "uce" || t.startsWith "c")
+    !(t = "x" || t = "s" || t = "q" || t = "uxb" || t.startsWith "uce" || t.startsWith "c")
   toks.filterMap fun t => match t.toList with
     | 'w' :: d => (String.ofList d).toNat?
     | _ => none
@@ -273,7 +275,7 @@ def runLine (r : Report) (sec : Nat) (l : Line) : Report := Id.run do
   let c := run.cfg
   let some resS := kv? l.obs "res" | return r.mismatch sec l.idx "bad-obs" (joinSp l.obs)
   -- not executed: the harness stops after a few calls that did not return (each of them is a violation already)
-  if resS = "skipped" then return r.addCover "not-executed-after-hangs"
+  if resS = "skipped" then return r.addCover "not-executed-after-hangs-or-leaks"
   let some left := (kv? l.obs "left").bind (·.toNat?) | return r.mismatch sec l.idx "bad-obs-left" (joinSp l.obs)
   let some mapped := (kv? l.obs "mapped").bind parseNatList | return r.mismatch sec l.idx "bad-obs-mapped" (joinSp l.obs)
   let some reduced := (kv? l.obs "reduced").bind parseNatList | return r.mismatch sec l.idx "bad-obs-reduced" (joinSp l.obs)
@@ -299,10 +301,25 @@ def runLine (r : Report) (sec : Nat) (l : Line) : Report := Id.run do
     if ((parseWorkers wS).getD []).any (· < 1) then r := r.addCover "workers-option<1"
     if ((parseWorkers wS).getD []).length > 1 then r := r.addCover "workers-option-list(last-wins)"
     if (kv? l.op "co") = some "0" then r := r.addCover "context-option-first"
+    if (kv? l.op "ck") = some "d" then r := r.addCover s!"context-kind-deadline-{(kv? l.op "ctx").getD ""}"
+    if (kv? l.op "ck") = some "v" then r := r.addCover s!"context-kind-derived-{(kv? l.op "ctx").getD ""}"
   if c.workers = defaultWorkers then r := r.addCover "workers=16"
   if (l.op.any fun t => ((t.splitOn "=").getD 1 "").splitOn "/" |>.any fun sc => (sc.splitOn ".").contains "f") then
     r := r.addCover "nested-calls-from-a-user-function"
   if isEachApi run.api ∧ (c.ctxCan ∨ c.ctxPre) then r := r.addCover "each-with-context"
+  -- the error VALUE classes handed to cancel / returned by a Finish function
+  let cancelCodes : List Nat := (l.op.flatMap fun t => ((t.splitOn "=").getD 1 "").splitOn "/" |>.flatMap fun sc => (sc.splitOn ".").filterMap fun a =>
+    match a.toList with
+    | 'c' :: d => (String.ofList d).toNat?
+    | _ => none)
+  for k in cancelCodes.eraseDups do
+    r := r.addCover s!"cancel-error-{errKindName k}"
+    r := r.addCover s!"cancel-error-{errKindName k}-{run.api}"
+  let toksOf (key : String) : List String := ((kv? l.op key).getD "-").splitOn "/" |>.flatMap (·.splitOn ".")
+  for (who, key) in [("mapper", "m"), ("reducer", "r")] do
+    if (toksOf key).contains "q" then r := r.addCover s!"goexit-{who}-{run.api}"
+    if (toksOf key).contains "pe" then r := r.addCover s!"panic-error-value-{who}-{run.api}"
+    if (toksOf key).contains "p" then r := r.addCover s!"panic-string-value-{who}-{run.api}"
   if nestedBad ≠ 0 then
     r := r.violation sec l.idx s!"{nestedBad} nested call(s) from inside a user function misbehaved (two functions of one Finish could not run at the same time / FinishVoid did not run both / a default MapReduce did not return its sum) op=[{joinSp l.op}]"
   for wt in run.waits.eraseDups do r := r.addCover s!"wait-{wt}"
@@ -355,12 +372,21 @@ def runLine (r : Report) (sec : Nat) (l : Line) : Report := Id.run do
     return r
   let some res := (if resS = "ok" then some (.err .noOutput) else parseRes resS)
     | return r.violation sec l.idx s!"outcome {resS} is neither a cancel/context error, a user panic nor a value op=[{opS}]"
-  if run.api ≠ "mr" ∧ run.api ≠ "chan" ∧ (resS = "err:noout" ∨ resS.startsWith "val:") then
-    r := r.violation sec l.idx s!"{run.api} returned {resS}: ErrReduceNoOutput must become nil and there is no value op=[{opS}]"
-  if ¬ allowed c res then
-    r := r.violation sec l.idx s!"outcome {resS} is not in the returned-error table of this call op=[{opS}]"
-  -- the table for the schedule that actually happened
   let hr := upTo (· == .ret) hist
+  -- `ErrReduceNoOutput` handed to cancel by the user (code 111) comes back as the same VALUE as the library's own
+  -- "no output": the outcome err:noout then has a second reading, "the error that was passed to cancel"
+  let alt : Option Res := if resS = "err:noout" ∧ cancelBegan (some 111) hr then some (.err (.user 111)) else none
+  let okBy (p : Res → Bool) : Bool := p res || alt.any p
+  if run.api ≠ "mr" ∧ run.api ≠ "chan" ∧ ((resS = "err:noout" ∧ ¬ alt.any (allowedAt mapped hist)) ∨ resS.startsWith "val:") then
+    r := r.violation sec l.idx s!"{run.api} returned {resS}: ErrReduceNoOutput must become nil (unless it is the error that was passed to cancel) and there is no value op=[{opS}]"
+  if ¬ okBy (allowed c) then
+    r := r.violation sec l.idx s!"outcome {resS} is not in the returned-error table of this call op=[{opS}]"
+  match res with
+  | .err (.user k) => if k ≥ 100 then r := r.addCover s!"returned-error-{errKindName k}-{run.api}"
+  | _ => pure ()
+  if hr.any isCend then r := r.addCover s!"cancel-completed-before-return-{run.api}"
+  if alt.any (allowedAt mapped hist) then r := r.addCover s!"returned-error-{errKindName 111}-{run.api}"
+  -- the table for the schedule that actually happened
   let preW := upTo isWbegin hr
   if hr.any isWbegin then
     if preW.any isCend then r := r.addCover "sched-cancel-returned-before-reducer-write"
@@ -374,12 +400,14 @@ def runLine (r : Report) (sec : Nat) (l : Line) : Report := Id.run do
   -- ForEach / FinishVoid / Finish have no user reducer: there is no reducer event to place `nil` against; instead:
   -- a nil return means every function ran and none of them had announced an error / a panic
   let noUserReducer := isEachApi run.api || run.api = "finish"
-  if noUserReducer ∧ res = .err .noOutput then
+  if noUserReducer ∧ res = .err .noOutput ∧ resS = "ok" then
     if hr.any (fun e => match e with | .cbegin _ _ => true | _ => false) then
       r := r.violation sec l.idx s!"{run.api} returned nil although a function had returned an error before hist={histS} op=[{opS}]"
     if sorted mapped ≠ List.range c.n then
       r := r.violation sec l.idx s!"{run.api} returned before every function / item was run exactly once: ran={showNats mapped} op=[{opS}]"
-  if ¬ (noUserReducer ∧ res = .err .noOutput) ∧ ¬ allowedAt mapped hist res then
+  -- (a void / Finish call whose err:noout is the cancel error is not the nil decision)
+  let nilDecision := noUserReducer ∧ res = .err .noOutput ∧ resS = "ok"
+  if ¬ nilDecision ∧ ¬ okBy (allowedAt mapped hist) then
     -- an error that WAS passed to cancel before the return, but by a call that began after another cancel call had
     -- returned, satisfies the property's text; it contradicts the model (cancel runs under a sync.Once:
     -- `Props.first_cancel_wins`): reported as a broken correspondence, not as a property violation
@@ -476,8 +504,69 @@ def runAe (st : Report × Cells) (sec : Nat) (l : Line) : Report × Cells := Id.
     return (r, cellPut cs n v)
   | _, _ => return (r.mismatch sec l.idx "bad-op" (opS ++ " => " ++ joinSp l.obs), cs)
 
+/-! ### the building blocks on their own: `unit gw|oc|once|opts|drain …` -/
+
+def runUnit (r : Report) (sec : Nat) (l : Line) : Report := Id.run do
+  let mut r := { r with ops := r.ops + 1 }
+  let opS := joinSp l.op
+  let obs := joinSp l.obs
+  match l.op with
+  | "unit" :: "gw" :: kvs =>
+    let some cap := (kv? kvs "cap").bind (·.toNat?) | return r.mismatch sec l.idx "bad-op" opS
+    let some v := (kv? kvs "v").bind (·.toNat?) | return r.mismatch sec l.idx "bad-op" opS
+    let some cx := kv? kvs "ctx" | return r.mismatch sec l.idx "bad-op" opS
+    let some dn := kv? kvs "done" | return r.mismatch sec l.idx "bad-op" opS
+    if ¬ ["none", "live", "over"].contains cx ∨ ¬ ["open", "closed"].contains dn then return r.mismatch sec l.idx "bad-op" opS
+    let drops := guardDrops (cx = "over") (dn = "closed")
+    r := r.addCover s!"unit-guardedWriter-{if drops then "drops" else "delivers"}-{if cap = 0 then "unbuffered" else "buffered"}"
+    let want := if drops then "dropped" else s!"delivered:{v}"
+    if obs ≠ want then
+      r := r.violation sec l.idx s!"guardedWriter.Write: {obs}, but a value must be {want} (dropped iff the context is over or done is closed, on every channel) op=[{opS}]"
+    return r
+  | "unit" :: "oc" :: kvs =>
+    let vs := (kv? kvs "vals").getD ""
+    let some vals := (if vs = "" then some [] else (vs.splitOn ",").mapM (·.toNat?)) | return r.mismatch sec l.idx "bad-op" opS
+    let first := match onceChanAfter vals with | some a => s!"v{a}" | none => "none"
+    r := r.addCover s!"unit-onceChan-writes-{min vals.length 2}"
+    let want := s!"first={first} second=none buffered={min vals.length 1}"
+    if obs ≠ want then
+      r := r.violation sec l.idx s!"onceChan: {obs}, expected {want} (the first captured panic is kept and re-raised exactly once) op=[{opS}]"
+    return r
+  | "unit" :: "once" :: kvs =>
+    let some n := (kv? kvs "calls").bind (·.toNat?) | return r.mismatch sec l.idx "bad-op" opS
+    let some m := (kv? kvs "insts").bind (·.toNat?) | return r.mismatch sec l.idx "bad-op" opS
+    r := r.addCover s!"unit-once-calls-{min n 3}"
+    let want := "ran=" ++ ",".intercalate ((List.replicate m (onceRuns n)).map toString)
+    if obs ≠ want then
+      r := r.violation sec l.idx s!"once: {obs}, expected {want} (the function runs for the first call only, per instance: first cancel wins) op=[{opS}]"
+    return r
+  | "unit" :: "opts" :: kvs =>
+    let some ws := (kv? kvs "w").bind parseWorkers | return r.mismatch sec l.idx "bad-op" opS
+    let some cx := kv? kvs "ctx" | return r.mismatch sec l.idx "bad-op" opS
+    r := r.addCover s!"unit-buildOptions-{if ws.isEmpty then "default" else if ws.length = 1 then "one" else "list"}-ctx-{if cx = "none" then "absent" else "present"}"
+    -- a second WithContext inserted at position k2 of the list that already holds the first one at k: it is applied
+    -- later iff k2 > k
+    let cx2 := (kv? kvs "ctx2").getD "none"
+    let ctxWant := if cx = "none" then (if cx2 = "none" then "bg" else "given2")
+      else if cx2 = "none" then "given"
+      else (let k := min (cx.toNat?.getD 0) ws.length; let k2 := min (cx2.toNat?.getD 0) (ws.length + 1)
+            if k2 > k then "given2" else "given")
+    if cx2 ≠ "none" then r := r.addCover "unit-buildOptions-two-contexts(last-wins)"
+    let want := s!"workers={workersOf ws} ctx={ctxWant}"
+    if obs ≠ want then
+      r := r.violation sec l.idx s!"buildOptions: {obs}, expected {want} (defaults 16 / Background, every option applied in order, the last WithWorkers wins, < 1 clamped to 1, the context forwarded from any position) op=[{opS}]"
+    return r
+  | "unit" :: "drain" :: _ =>
+    r := r.addCover "unit-drain"
+    if obs ≠ "returned left=0" then
+      r := r.violation sec l.idx s!"drain: {obs}, expected to return with the channel empty op=[{opS}]"
+    return r
+  | _ => return r.mismatch sec l.idx "bad-op" opS
+
 def runSection (r : Report) (s : Section) : Report :=
-  if s.lines.all (fun l => l.op.head? = some "ae") ∧ ¬ s.lines.isEmpty then
+  if s.lines.all (fun l => l.op.head? = some "unit") ∧ ¬ s.lines.isEmpty then
+    s.lines.foldl (fun r l => runUnit r s.idx l) r
+  else if s.lines.all (fun l => l.op.head? = some "ae") ∧ ¬ s.lines.isEmpty then
     (s.lines.foldl (fun st l => runAe st s.idx l) (r, [])).1
   else s.lines.foldl (fun r l => runLine r s.idx l) r
 
